@@ -366,6 +366,50 @@ func zzH_C05_oscSplit() {
 }
 
 
+// after the wrapper typed an upload command for dropped files (uploadDragFiles: echo filter armed, command remembered):
+// the echo filter is one-shot. The first read after the command is either forwarded unchanged or, when it is exactly
+// the command's echo, replaced by a line break; every later read is forwarded unchanged — also one that looks like the echo.
+func zzH_C05_afterDrag() {
+	l := verifBound("L")
+	command := "trz"
+	if verifNondetBool() {
+		command = "trz -d"
+	}
+	var chunks [][]byte
+	var lens []int
+	for r := 0; r < 2; r++ {
+		n := verifNondetRange(1, l)
+		c := make([]byte, n)
+		for i := range c {
+			c[i] = verifNondetByte()
+			verifAssume(c[i] != '*' && c[i] != ':') // no trigger, no zmodem header
+		}
+		chunks = append(chunks, c)
+		lens = append(lens, n)
+	}
+	first := append([]byte{}, chunks[0]...)
+	second := append([]byte{}, chunks[1]...)
+	out, in := &zzCap5{}, &zzCap5{}
+	f := &TrzszFilter{clientOut: out, serverIn: in, serverOut: &zzFeed5{chunks: chunks}}
+	f.options.EnableZmodem = verifNondetBool()
+	armed := verifNondetBool()
+	f.skipUploadCommand.Store(armed)
+	f.currentUploadCommand.Store(&command)
+	go f.wrapOutput()
+	verifQuiesce()
+	verifAssert(len(in.got) == 0, "wrapper wrote to the remote side on its own")
+	verifAssert(len(out.got) >= len(second), "later output lost after an auto-typed upload command")
+	if len(out.got) >= len(second) {
+		head := out.got[:len(out.got)-len(second)]
+		zzSame5(out.got[len(out.got)-len(second):], second, "read after the echo of the upload command")
+		if !armed || len(head) != 2 || head[0] != '\r' || head[1] != '\n' {
+			zzSame5(head, first, "first read after the upload command")
+		}
+	}
+	verifAssert(!f.skipUploadCommand.Load(), "echo filter still armed after the first read")
+	verifReach("after-drag")
+}
+
 // zzEOFFeed5: a reader that hands out its chunks and ends with io.EOF, either together with the last chunk or on its
 // own afterwards (both are allowed by the io.Reader contract)
 type zzEOFFeed5 struct {
